@@ -293,6 +293,7 @@ type ctEngine struct {
 	namedEra          int
 	era               int
 	allowJump         bool
+	shortMs           uint64 // time passed in steps shorter than a name's lifetime
 	nForeign          int
 	prevC, prevB      []KV
 	known             map[string]int // id → blob index
@@ -478,6 +479,25 @@ func (e *ctEngine) run() {
 		if op.Kind == ctJump {
 			if !e.allowJump {
 				continue
+			}
+			if e.era == 0 && op.Dt != 1 {
+				// a shorter passage of time (two hours, a year; less than nine
+				// years in all): every name given so far is well within its
+				// lifetime and must go on being served
+				step := uint64(2 * 3600 * 1000)
+				if op.Dt == 3 {
+					step = 365 * 24 * 3600 * 1000
+				}
+				if e.shortMs+step < 9*365*24*3600*1000 {
+					e.shortMs += step
+					e.r.Inject("clock.jump")
+					e.r.Fired("clock.jump")
+					e.r.Count("probe.clock_step_within_name_lifetime")
+					e.r.Tok("step", "clock.jump", "ok")
+					e.r.Tracef("clock step of %d h", step/3600000)
+					flush(0, step)
+					continue
+				}
 			}
 			// the block closing now is the first one after the jump
 			e.era++
